@@ -1,15 +1,17 @@
 #!/bin/bash
 # tools/try_seed.sh <Cxx> <seedout dir> <k> [tier]  -- confirm a seeded change and run the check against it
-# uses a dedicated worktree /tmp/lead_mut_tree (never /repo itself, other builders are reading it)
+# uses a dedicated worktree $MT (never /repo itself, other builders are reading it)
 P=$1; D=$2; K=$3; TIER=${4:-quick}
-cd /repo && { [ -d /tmp/lead_mut_tree ] || git worktree add -q --detach /tmp/lead_mut_tree HEAD; }
-cd /tmp/lead_mut_tree && git checkout -q -- . ; git clean -fdq; git checkout -q --detach main
-echo "== demo on clean tree:"; PYTHONPATH=/tmp/lead_mut_tree/src /venv/bin/python $D/$K/demo.py > /root/scratch/demo_clean.out 2>&1; echo "exit $?"
+# LANE: several confirmations may run side by side, each lane has its own mutant tree and its own copy of /verif
+L=${LANE:-}; MT=/tmp/lead_mut_tree$L; VC=/root/scratch/verif_mut$L
+cd /repo && { [ -d $MT ] || git worktree add -q --detach $MT HEAD; }
+cd $MT && git checkout -q -- . ; git clean -fdq; git checkout -q --detach main
+echo "== demo on clean tree:"; PYTHONPATH=$MT/src /venv/bin/python $D/$K/demo.py > /root/scratch/demo_clean$L.out 2>&1; echo "exit $?"
 git apply $D/$K/patch.diff || { echo "PATCH DOES NOT APPLY"; exit 3; }
-echo "== baseline with change:"; python3 /verif/tools/baseline_check.py /tmp/lead_mut_tree
-echo "== demo with change:"; PYTHONPATH=/tmp/lead_mut_tree/src /venv/bin/python $D/$K/demo.py > /root/scratch/demo_mut.out 2>&1; echo "exit $?"
+echo "== baseline with change:"; python3 /verif/tools/baseline_check.py $MT
+echo "== demo with change:"; PYTHONPATH=$MT/src /venv/bin/python $D/$K/demo.py > /root/scratch/demo_mut$L.out 2>&1; echo "exit $?"
 echo "== check $P ($TIER) against the change:"
 # the check runs from a copy of /verif so that evidence/ and .work/ of /verif itself are not touched
-rsync -a --delete --exclude .work --exclude .git /verif/ /root/scratch/verif_mut/
-cd /root/scratch/verif_mut && VERIF_REPO=/tmp/lead_mut_tree ./check $P --tier $TIER --keep 2>&1 | grep -v '^"{' | grep "VIOLATION\|KNOWN\|$P $TIER\|MACHINERY" | cut -c1-200 | tail -6
-cd /tmp/lead_mut_tree && git checkout -q -- . && git clean -fdq
+rsync -a --delete --exclude .work --exclude .git /verif/ $VC/
+cd $VC && VERIF_REPO=$MT ./check $P --tier $TIER --keep 2>&1 | grep -v '^"{' | grep "VIOLATION\|KNOWN\|$P $TIER\|MACHINERY" | cut -c1-200 | tail -6
+cd $MT && git checkout -q -- . && git clean -fdq
